@@ -37,7 +37,7 @@ if [ "$ok" = yes ]; then
 fi
 trigger=$(grep -i -m1 -A3 "trigger" "$d/SEED_REPORT.md" 2>/dev/null | tr '\n' ' ' | cut -c1-400 | sed 's/"/\\"/g')
 cat > "$d/meta.json" <<JSON
-{"name":"$name","breaks":"$(echo $props | cut -d' ' -f1)","origin":"independent sub-agent given only the property text and a scratch worktree",
+{"name":"$name","breaks":"$(echo $props | cut -d' ' -f1)","origin":"${ORIGIN:-independent sub-agent given only the property text and a scratch worktree}",
  "needs_to_manifest":"$trigger",
  "confirmed":{"suite_passes_with_change":"$suite","demo_fails_with_change":"$demo_with","demo_passes_without_change":"$demo_without"},
  "checks_run":[${res%,}]}
